@@ -11,7 +11,7 @@ RULE = ("seeded well-formed sequences x {pad(n): n in {0,d-1,d,d+1,random}; cuto
         "k-fold image is already grid/value conformant; set_channel(0..15)}; the contracts on the real wrappers decide. "
         "Non-trivial: the call changed the sequence or used a boundary argument.")
 PLAN = {"quick": {"cases": 8000, "jobs": 4, "timeout": 600},
-        "thorough": {"cases": 400000, "jobs": 16, "timeout": 3000, "budget_s": 420}}
+        "thorough": {"cases": 2000000, "jobs": 16, "timeout": 3000, "budget_s": 360}}
 FLOORS = {"quick": {"pad.duration.armed": 1200, "cutoff.notes.armed": 1200, "scale.notes.armed": 2000,
                     "set_channel.all_channels.armed": 1200, "c18.scale_quantised_armed": 500},
           "thorough": {"pad.duration.armed": 30000, "cutoff.notes.armed": 30000, "scale.notes.armed": 50000}}
